@@ -6,36 +6,42 @@ model is infeasible or a limit is hit."
 
 What is proved, about the decision-logic model `Model/Opt.lean` at exact rationals (`Num Rat`):
 
-(1) the optimisation fast path (`OptimizationRouter`, run on the not-yet-lowered model).
-    Full strength — "whenever the router answers, its point is feasible and optimal" — is FALSE of
-    the code; one kernel-checked counterexample per defect class
+(1) the optimisation fast path (`OptimizationRouter`, run on the not-yet-lowered model after the
+    validator, and only when no deferred constraint is waiting).
+    Full strength — "whenever the fast path answers, its point is feasible and optimal" — is FALSE of
+    the code; one kernel-checked counterexample per OPEN defect class
     (`C08_fast_path_counterexample_*`; each is replayed on the real code by the harness and tagged):
-      · deferred (fluent / lin_*) constraints are invisible            `fast-path-ignores-pending-rows`
       · constraints on / with other variables are never consulted       `fast-path-ignores-nonobjective-rows`
       · props-level linear rows carry N-ary metadata, nothing extracted `fast-path-ignores-props-linear-rows`
       · for max only upper, for min only lower bounds are combined      `fast-path-ignores-opposite-bounds`
       · orientations the analysis does not match (`c == x`, `c < x`)    `fast-path-unextracted-bound-shape`
-      · an integer objective is replaced by "the only float variable"   `fast-path-wrong-objective`
       · a declined `maximize` re-enters the router through
         `minimize(opposite)` and the variable is MINIMISED              `fast-path-max-falls-into-min`
+    Repaired classes, now theorems about the same witnesses:
+      · deferred constraints were invisible (c9cb80d)        `C08_fast_path_pending_declines`
+      · an integer objective was replaced by the only float variable (9b99c03)
+                                                             `C08_fast_path_integer_objective_declines`
+      · invalid domains were answered `Ok` (87f7dea)         `C08_fast_path_invalid_model_rejected`
     `C08_fast_path_sound_partial`: under the decidable guard `fastGuard` (only props-level
     non-strict bounds on the objective variable, consistent, answer not taken from propagation)
-    the fast answer is feasible and optimal.
+    the fast answer of `minimize` / `maximize` is feasible and optimal
+    (`C08_router_sound_partial`: the same for the router called on its own, under `routerGuard`).
 (2) the root LP step.  `C08_root_lp_is_relaxation`: the `LpProblem` built at the root (the model
     `lpProblem`, compared bit for bit with the problem hook H9 records inside the search) is a
     relaxation of the collected linear rows inside the current bounds, with the search objective —
-    under `relaxGuard` (no row mentions a variable twice; substituted constants are really fixed);
-    `C08_root_lp_is_relaxation_counterexample`: a repeated variable keeps only its last coefficient
-    and the LP cuts off solutions (`root-lp-duplicate-variable`); `C08_root_lp_objective_bound`
-    combines it with weak duality.  `C08_lp_bound_transfer_sound`: from a legal optimal certificate of the LP
+    under `relaxGuard` (substituted constants are really fixed);
+    `C08_root_lp_duplicate_variable_accumulates`: since fix 02fabc4 the coefficients of a repeated
+    variable add up (before, only the last one survived and the LP cut off solutions);
+    `C08_root_lp_objective_bound` combines the relaxation with weak duality.  `C08_lp_bound_transfer_sound`: from a legal optimal certificate of the LP
     relaxation, tightening the OBJECTIVE variable's bound to the LP optimum keeps every solution
     of the mixed model that is at least as good as any given one (weak duality, `Lemmas/Lp.lean`);
     `C08_lp_vertex_transfer_counterexample`: what the code does — fixing every LP variable to the
     vertex (`apply_lp_solution`) — loses all solutions of a satisfiable mixed model (`root-lp`).
 (3) errors.  `C08_error_only_if_infeasible` is false for the modelled paths
     (`…_counterexample`: the vertex transfer fails on a fractional integer coordinate and the search
-    ends with `NoSolution`); `…_partial`: the fast path never errs, and a `NoSolution` that comes
-    from a certified-infeasible LP relaxation is justified.
+    ends with `NoSolution`); `…_partial`: `InvalidDomain` only for models without any feasible
+    assignment, the fast path never errs, and a `NoSolution` that comes from a certified-infeasible
+    LP relaxation is justified.
 
 Not covered: IEEE rounding (the driver runs the same definitions at `Float`, compared bit for bit
 by suite `opt`), the propagation run behind `ConstraintAwareOptimizer` (an input of the model),
@@ -82,15 +88,16 @@ theorem posts_nil_of_no_meta (m : OModel Rat) (obj : Nat) (hb : m.posts.all (bou
     obtain ⟨md, hmd⟩ := hm
     simp [OModel.propsNonEmpty, OModel.metas, hp, hmd] at h
 
-/-- **C08 (fast path), partial.**  Under `fastGuard` a fast-path answer of the router is a feasible
-point of the model (domains and every posted constraint) and no feasible point is better. -/
-theorem C08_fast_path_sound_partial (m : OModel Rat) (pbs : List (Option (Rat × Rat))) (isMax : Bool)
+/-- **router level.**  Under `routerGuard` an answer of `OptimizationRouter::try_{min,max}imize`
+(called on its own) is a feasible point of the model (domains and every posted constraint) and no
+feasible point is better. -/
+theorem C08_router_sound_partial (m : OModel Rat) (pbs : List (Option (Rat × Rat))) (isMax : Bool)
     (obj : Nat) (sol : List (FVal Rat))
-    (hg : fastGuard m isMax obj = true) (h : route m pbs isMax obj = .fast sol) :
+    (hg : routerGuard m isMax obj = true) (h : route m pbs isMax obj = .fast sol) :
     feasible m (solPoint sol) = true ∧
       ∀ a, feasible m a = true → atLeastAsGood isMax (a.getD obj 0) ((solPoint sol).getD obj 0) := by
   -- unpack the guard
-  simp only [fastGuard, Bool.and_eq_true, Bool.not_eq_true'] at hg
+  simp only [routerGuard, Bool.and_eq_true, Bool.not_eq_true'] at hg
   obtain ⟨⟨⟨⟨hv, hne⟩, hb⟩, hcons⟩, hnp⟩ := hg
   cases hvo : m.vars[obj]? with
   | none => rw [hvo] at hv; simp at hv
@@ -244,6 +251,71 @@ theorem C08_fast_path_sound_partial (m : OModel Rat) (pbs : List (Option (Rat ×
     rw [hobj]
     exact hopt _ hva.1 hva.2 hpa.1 hpa.2
 
+/-- **C08 (fast path), partial.**  Under `fastGuard` a fast-path answer of `Model::minimize` /
+`Model::maximize` is a feasible point of the model (domains and every posted constraint, whatever
+route it was posted by) and no feasible point is better.  Validity of the domains, absence of
+deferred constraints and "the objective is a float variable" are no longer hypotheses: the entry
+point establishes them before the router's answer is used. -/
+theorem C08_fast_path_sound_partial (m : OModel Rat) (pbs : List (Option (Rat × Rat))) (isMax : Bool)
+    (obj : Nat) (sol : List (FVal Rat))
+    (hg : fastGuard m isMax obj = true) (h : entry m pbs isMax obj = .fast sol) :
+    feasible m (solPoint sol) = true ∧
+      ∀ a, feasible m a = true → atLeastAsGood isMax (a.getD obj 0) ((solPoint sol).getD obj 0) := by
+  simp only [fastGuard, Bool.and_eq_true, Bool.not_eq_true'] at hg
+  obtain ⟨⟨⟨hv, hb⟩, hcons⟩, hnp⟩ := hg
+  -- the entry point validated the model and found no deferred constraint
+  simp only [entry] at h
+  cases hval : m.vars.all validVar with
+  | false => rw [hval] at h; simp at h
+  | true =>
+  rw [hval] at h
+  simp only [Bool.not_true, Bool.false_eq_true, if_false] at h
+  cases hpend : m.hasPending with
+  | true => rw [hpend] at h; simp at h
+  | false =>
+  rw [hpend] at h
+  simp only [Bool.false_eq_true, if_false] at h
+  -- the router itself answered, in the requested direction
+  have hroute : route m pbs isMax obj = .fast sol := by
+    cases hr : route m pbs isMax obj with
+    | fast s => rw [hr] at h; simpa using h
+    | panic => rw [hr] at h; simp at h
+    | declined r =>
+      rw [hr] at h
+      simp only at h
+      cases isMax with
+      | false => simp at h
+      | true =>
+        simp only [if_true] at h
+        -- `minimize(opposite)` answered: impossible when the maximisation does not use propagation
+        exfalso
+        cases hr2 : route m pbs false obj with
+        | panic => rw [hr2] at h; simp at h
+        | declined r2 => rw [hr2] at h; simp at h
+        | fast s2 =>
+          obtain ⟨hcl, hcx⟩ := route_min_fast_pure m pbs obj s2 hr2
+          obtain ⟨x, hx, _⟩ := route_fast m pbs false obj s2 hr2
+          obtain ⟨hxo, iv, hiv⟩ := extractSimple_some m.vars obj x hx
+          subst hxo
+          have : route m pbs true x = trySafe m pbs true x := by
+            simp only [route, hx, hcl, hcx, Bool.false_eq_true, if_false]
+          rw [this] at hr
+          exact trySafe_not_declined m pbs true x iv hiv hnp r hr
+  obtain ⟨x, hx, _⟩ := route_fast m pbs isMax obj sol hroute
+  obtain ⟨_, iv, hiv⟩ := extractSimple_some m.vars obj x hx
+  have hne : m.vars.all nonEmptyVar = true := by
+    simp only [List.all_eq_true] at hval ⊢
+    exact fun v hv' => validVar_nonEmpty v (hval v hv')
+  have hmm : iv.min ≤ iv.max := by
+    have hmem : (FVar.flt iv) ∈ m.vars := List.mem_of_getElem? hiv
+    have := validVar_nonEmpty _ ((List.all_eq_true.mp hval) _ hmem)
+    simpa [nonEmptyVar] using this
+  refine C08_router_sound_partial m pbs isMax obj sol ?_ hroute
+  rw [hiv] at hv
+  simp only [routerGuard, hiv, Bool.and_eq_true, Bool.not_eq_true', decide_eq_true_eq]
+  simp only [Bool.and_eq_true] at hv
+  exact ⟨⟨⟨⟨⟨⟨hmm, hv.1⟩, hv.2⟩, hne⟩, hb⟩, hcons⟩, hnp⟩
+
 /-! ### (1) fast path: full strength is false — one counterexample per defect class -/
 
 /-- the entry point answered through the fast path and the answer satisfies `p` -/
@@ -258,11 +330,13 @@ def fl (lo hi : Rat) : FVar Rat := .flt { min := lo, max := hi, step := 1 / 1000
 /-- `x ∈ [0,10]`, `m.new(x.le(4.5))` (deferred, invisible to the router); `maximize(x)` -/
 def mPending : OModel Rat := { vars := [fl 0 10], posts := [postFluent .le [1] [0] (9 / 2)] }
 
-/-- **counterexample** `fast-path-ignores-pending-rows`: the fast path answers `x = 10`, which
-violates `x ≤ 4.5` (true optimum 4.5). -/
-theorem C08_fast_path_counterexample_pending :
-    fastAnswer (entry mPending [] true 0) (fun a => a == [10] && !feasible mPending a) = true
-      ∧ feasible mPending [9 / 2] = true := by
+/-- **repaired** (fix c9cb80d; was the counterexample `fast-path-ignores-pending-rows`, answer
+`x = 10`): while a deferred constraint is waiting to be lowered the entry point does not consult the
+router and goes to the search path — although the router on its own, which cannot see `x ≤ 4.5`,
+would still answer `x = 10`. -/
+theorem C08_fast_path_pending_declines :
+    (match entry mPending [] true 0 with | .search => true | _ => false) = true
+      ∧ route mPending [] true 0 = .fast [.f 10] := by
   constructor <;> decide +kernel
 
 /-- `x, y ∈ [0,10]`, props-level `y ≥ 8` (visible, but on another variable); `maximize(x)` -/
@@ -308,12 +382,23 @@ theorem C08_fast_path_counterexample_shape :
 /-- `n ∈ {0..3}` integer, `x ∈ [0,10]` float, no constraint; `maximize(n)` -/
 def mWrongObj : OModel Rat := { vars := [.int [0, 1, 2, 3], fl 0 10], posts := [] }
 
-/-- **counterexample** `fast-path-wrong-objective`: the objective is not a float variable, so
-`extract_simple_variable` substitutes the only float variable: `x` is maximised and `n` gets its
-MINIMUM; `(3, 0)` is feasible and better. -/
-theorem C08_fast_path_counterexample_wrong_objective :
-    fastAnswer (entry mWrongObj [] true 0) (fun a => a == [0, 10] && feasible mWrongObj a) = true
-      ∧ feasible mWrongObj [3, 0] = true := by
+/-- **repaired** (fix 9b99c03; was the counterexample `fast-path-wrong-objective`, answer
+`(n, x) = (0, 10)`): an objective that is a variable but not a float variable is no longer replaced
+by "the only float variable"; the router declines and `maximize(n)` goes to the search path. -/
+theorem C08_fast_path_integer_objective_declines :
+    (match route mWrongObj [] true 0 with | .declined .mixedSeparable => true | _ => false) = true
+      ∧ (match entry mWrongObj [] true 0 with | .search => true | _ => false) = true := by
+  constructor <;> decide +kernel
+
+/-- `x` declared as `m.float(5, 1)` (reversed bounds) -/
+def mReversed : OModel Rat := { vars := [fl 5 1], posts := [] }
+
+/-- **repaired** (fix 87f7dea; was the finding `fast-path-skips-validation`, answer `Ok(x = 1)`):
+the validator runs before the router and the entry point reports `InvalidDomain` — although the
+router on its own would still answer. -/
+theorem C08_fast_path_invalid_model_rejected :
+    (match entry mReversed [] true 0 with | .invalid => true | _ => false) = true
+      ∧ (match route mReversed [] true 0 with | .fast _ => true | _ => false) = true := by
   constructor <;> decide +kernel
 
 /-- `x ∈ [0,10]`, props-level `x ≤ -5` (infeasible, propagation fails); `maximize(x)` -/
@@ -327,12 +412,12 @@ theorem C08_fast_path_counterexample_reroute :
       ∧ fastAnswer (entry mReroute [none] true 0) (fun a => a == [0] && !feasible mReroute a) = true := by
   constructor <;> decide +kernel
 
-/-- the full-strength statement, refuted: "every fast-path answer is feasible" -/
+/-- the full-strength statement, refuted: "every fast-path answer of the entry points is feasible" -/
 theorem C08_fast_path_sound_counterexample :
     ¬ ∀ (m : OModel Rat) (pbs : List (Option (Rat × Rat))) (isMax : Bool) (obj : Nat) (sol : List (FVal Rat)),
-        route m pbs isMax obj = .fast sol → feasible m (solPoint sol) = true := by
+        entry m pbs isMax obj = .fast sol → feasible m (solPoint sol) = true := by
   intro h
-  have := h mPending [] true 0 [.f 10] (by decide +kernel)
+  have := h mOther [some (0, 10), some (8, 10)] true 0 [.f 10, .f 5] (by decide +kernel)
   revert this
   decide +kernel
 
@@ -341,7 +426,7 @@ theorem C08_fast_path_sound_counterexample :
 def mGuarded : OModel Rat :=
   { vars := [fl 0 10, .int [2, 3]], posts := [.cmp .le (.v 0) (.c (9 / 2)), .cmp .le (.c 1) (.v 0)] }
 
-example : fastGuard mGuarded true 0 = true ∧ route mGuarded [] true 0 = .fast [.f (9 / 2), .i 2] := by
+example : fastGuard mGuarded true 0 = true ∧ entry mGuarded [] true 0 = .fast [.f (9 / 2), .i 2] := by
   constructor <;> decide +kernel
 
 /-! ### (2) root LP step -/
@@ -452,9 +537,9 @@ theorem C08_root_lp_is_relaxation (eps : Rat) (m : OModel Rat) (obj : Nat) (mini
     Lp.feasible (lpProblem eps m obj minimize).toProblem ((lpProblem eps m obj minimize).cols.map (fun v => a.getD v 0)) = true ∧
     Lp.dot (lpProblem eps m obj minimize).c ((lpProblem eps m obj minimize).cols.map (fun v => a.getD v 0))
       = (if obj ∈ (lpProblem eps m obj minimize).cols then (if minimize then - a.getD obj 0 else a.getD obj 0) else 0) := by
-  simp only [relaxGuard, Bool.and_eq_true, List.all_eq_true, decide_eq_true_eq, Bool.or_eq_true,
+  simp only [relaxGuard, List.all_eq_true, decide_eq_true_eq, Bool.or_eq_true,
     Bool.not_eq_true'] at hg
-  obtain ⟨hnd, hfix⟩ := hg
+  have hfix := hg
   -- abbreviations
   generalize hrows : sysRows eps m = rows at *
   generalize hsys : sysVars (rows.map (·.xs)) = sys at *
@@ -493,11 +578,10 @@ theorem C08_root_lp_is_relaxation (eps : Rat) (m : OModel Rat) (obj : Nat) (mini
       obtain ⟨r, hrr, q, hq, rfl⟩ := hp
       have hs := buildRow_spec m.vars cols a r.xs q.1 (cols.map (fun _ => zero)) q.2
         (fun x hx hcx => hconst x (hmemsys r hrr x hx) hcx)
-        (hnd r hrr) (by simp)
+        (by simp)
         (fun x hx hcx => by
           rw [← hc]
           exact List.mem_filter.mpr ⟨hmemsys r hrr x hx, by rw [hcx]; rfl⟩)
-        (fun x _ _ => getD_zero_map cols _)
       rw [dot_zero_map] at hs
       have hh := hr r hrr
       simp only [LRow.holds] at hh
@@ -573,19 +657,20 @@ theorem C08_root_lp_objective_bound (eps : Rat) (m : OModel Rat) (obj : Nat) (mi
   · intro hm; rw [hm] at hbound; simpa using hbound
   · intro hm; rw [hm] at hbound; simp only [if_true] at hbound; grind
 
-/-- **counterexample** (the guard is needed; finding `root-lp-duplicate-variable`): the row
-`-2·x + 1·x ≤ -1` posted as `m.lin_le(&[-2.0, 1.0], &[x, x], -1.0)` means `x ≥ 1`, but
-`to_lp_problem` keeps only the LAST coefficient of a repeated variable: the LP row is `1·x ≤ -1`.
-`(x, y) = (2, 0)` satisfies all rows and bounds and is cut off by the LP. -/
+/-- the row `-2·x + 1·x ≤ -1` posted as `m.lin_le(&[-2.0, 1.0], &[x, x], -1.0)` (it means `x ≥ 1`) -/
 def mDup : OModel Rat :=
   { vars := [fl 0 10, fl 0 10], posts := [postLin false [-2, 1] [0, 0] (-1), postLin false [1, 1] [0, 1] 20] }
 
-theorem C08_root_lp_is_relaxation_counterexample :
-    rootLpEligible mDup 0 = true
+/-- **repaired** (fix 02fabc4; was `C08_root_lp_is_relaxation_counterexample`, finding
+`root-lp-duplicate-variable`: the LP row was `1·x ≤ -1`, cutting off `(2, 0)`): the coefficients of
+a repeated variable add up, the LP row is `-1·x ≤ -1`, the guard holds without a "distinct
+variables" clause and `(2, 0)` is feasible for the LP. -/
+theorem C08_root_lp_duplicate_variable_accumulates :
+    relaxGuard (1 / 1000000) mDup = true
       ∧ (sysRows (1 / 1000000) mDup).all (fun r => r.holds [2, 0]) = true
-      ∧ (lpProblem (1 / 1000000) mDup 0 false).a = [[1, 0], [1, 1]]
+      ∧ (lpProblem (1 / 1000000) mDup 0 false).a = [[-1, 0], [1, 1]]
       ∧ (lpProblem (1 / 1000000) mDup 0 false).b = [-1, 20]
-      ∧ Lp.feasible (lpProblem (1 / 1000000) mDup 0 false).toProblem [2, 0] = false := by
+      ∧ Lp.feasible (lpProblem (1 / 1000000) mDup 0 false).toProblem [2, 0] = true := by
   refine ⟨by decide +kernel, by decide +kernel, by decide +kernel, by decide +kernel, by decide +kernel⟩
 
 /-- non-vacuity: `mVertex` satisfies the guard and `(1, 1)` satisfies the hypotheses -/
@@ -625,27 +710,71 @@ theorem C08_error_only_if_infeasible_counterexample :
   revert this
   decide +kernel
 
-/-- **C08 (errors), partial.**  (a) the fast path never produces an error: when the router answers,
-the entry point returns that answer.  (b) On the root step, `NoSolution` caused by an LP report
-`Infeasible` is justified whenever that report comes with a legal Phase-I certificate of the
-relaxation `P` (positive artificial sum): then the mixed model, whose solutions are feasible for
-`P`, has no solution. -/
+/-- an invalid variable (reversed float bounds, empty integer domain) cannot take any value -/
+theorem invalid_var_no_value (v : FVar Rat) (h : validVar v = false) (t : Rat) : varOk v t = false := by
+  cases v with
+  | int d =>
+    simp only [validVar, Bool.not_eq_eq_eq_not, Bool.not_false, List.isEmpty_iff] at h
+    subst h
+    simp [varOk]
+  | flt iv =>
+    simp only [validVar] at h
+    num_simp at h
+    simp only [Bool.or_self, Bool.not_false, Bool.and_true] at h
+    simp only [varOk, Bool.and_eq_false_iff, decide_eq_false_iff_not, Rat.not_le]
+    grind
+
+/-- **C08 (errors), partial.**  (a) the `InvalidDomain` error of the entry points (validation
+before the router) is only produced for models without any feasible assignment.  (b) for a valid
+model without deferred constraints, an answer of the router is what the entry point returns — the
+fast path itself never produces an error.  (c) On the root step, `NoSolution` caused by an LP
+report `Infeasible` is justified whenever that report comes with a legal Phase-I certificate of
+the relaxation `P` (positive artificial sum): then the mixed model, whose solutions are feasible
+for `P`, has no solution. -/
 theorem C08_error_only_if_infeasible_partial :
+    (∀ (m : OModel Rat) (pbs : List (Option (Rat × Rat))) (isMax : Bool) (obj : Nat),
+        entry m pbs isMax obj = .invalid → ∀ a, Opt.feasible m a = false) ∧
     (∀ (m : OModel Rat) (pbs : List (Option (Rat × Rat))) (isMax : Bool) (obj : Nat) (sol : List (FVal Rat)),
+        m.vars.all validVar = true → m.hasPending = false →
         route m pbs isMax obj = .fast sol → entry m pbs isMax obj = .fast sol) ∧
     (∀ (P : Problem) (basis : List Nat) (w y : Vec) (Mixed : Vec → Prop),
         P.wf = true → legalOptimal (phase1Std (toStd P)) 0 0 basis w y = true →
         dot (phase1Std (toStd P)).c w < 0 → (∀ x, Mixed x → Lp.feasible P x = true) →
         ∀ x, ¬ Mixed x) := by
-  constructor
-  · intro m pbs isMax obj sol h
-    simp only [entry, h]
+  refine ⟨?_, ?_, ?_⟩
+  · intro m pbs isMax obj h a
+    have hval : m.vars.all validVar = false := by
+      cases hv : m.vars.all validVar with
+      | false => rfl
+      | true =>
+        simp only [entry, hv, Bool.not_true, Bool.false_eq_true, if_false] at h
+        split at h
+        · simp at h
+        · split at h
+          · simp at h
+          · simp at h
+          · split at h
+            · split at h <;> simp at h
+            · simp at h
+    cases hf : Opt.feasible m a with
+    | false => rfl
+    | true =>
+      exfalso
+      simp only [Opt.feasible, Bool.and_eq_true] at hf
+      simp only [List.all_eq_false] at hval
+      obtain ⟨v, hv, hvv⟩ := hval
+      obtain ⟨j, hj, hjv⟩ := List.getElem_of_mem hv
+      have := varsOk_get m.vars a j v hf.1 (by rw [List.getElem?_eq_getElem hj, hjv])
+      rw [invalid_var_no_value v (by simpa using hvv)] at this
+      simp at this
+  · intro m pbs isMax obj sol hv hp h
+    simp only [entry, hv, hp, h, Bool.not_true, Bool.false_eq_true, if_false]
   · intro P basis w y Mixed hw hl hpos hrel x hx
     have := C09_phase1_infeasible P hw basis w y hl hpos x
     rw [hrel x hx] at this
     simp at this
 
-/-- non-vacuity of (b): the relaxation `x ≤ -1, 0 ≤ x ≤ 1` has a legal Phase-I certificate with a
+/-- non-vacuity of (c): the relaxation `x ≤ -1, 0 ≤ x ≤ 1` has a legal Phase-I certificate with a
 positive artificial sum -/
 example : ∃ (P : Problem) (basis : List Nat) (w y : Vec),
     P.wf = true ∧ legalOptimal (phase1Std (toStd P)) 0 0 basis w y = true ∧ dot (phase1Std (toStd P)).c w < 0 :=
